@@ -142,7 +142,7 @@ class UnitRun:
             if oid is None:
                 infra.append('diagnostic outside the extracted functions (ghost fn %s): %s' % (detail.get('ghost_fn'), d['message']))
                 continue
-            fails.append({'obligation': oid, 'fn': fn, 'detail': detail})
+            fails.append({'obligation': oid, 'full': oid + (('|' + detail['sub']) if detail.get('sub') else ''), 'fn': fn, 'detail': detail})
         # functions reported unsuccessful without any diagnostic mapped to them
         for name, f in res['functions'].items():
             if not f['success'] and not any(x['fn'] and (x['fn'] == name or x['fn'].endswith(name)) for x in fails):
@@ -165,8 +165,9 @@ def scan_assumptions(gen_lines, meta):
 
 
 # ---------------------------------------------------------------------------------------------------------------- properties
-def V(unit, vcfile=None, variant=None, defines=None, note=''):
-    return {'engine': 'verus', 'unit': unit, 'vcfile': vcfile or (unit + '.vc'), 'variant': variant, 'defines': defines or {}, 'note': note}
+def V(unit, vcfile=None, variant=None, defines=None, note='', tags=None, only_fns=None, canary=True):
+    return {'engine': 'verus', 'unit': unit, 'vcfile': vcfile or (unit + '.vc'), 'variant': variant, 'defines': defines or {}, 'note': note,
+            'tags': tags, 'only_fns': only_fns, 'canary': canary}
 
 
 PROPS = {
@@ -176,7 +177,12 @@ PROPS = {
     'C04': {'legs': [V('book')], 'design': '§5 C04'},
     'C06': {'legs': [V('book')], 'design': '§5 C06'},
     'C07': {'legs': [V('book')], 'design': '§5 C07'},
-    'C12': {'legs': [V('book')], 'design': '§5 C12'},
+    # C05 demands C01-C04, C06, C07 WITHOUT the clock-discipline precondition: the same unit with those conjuncts removed
+    'C05': {'legs': [V('book', variant='nodisc', defines={'defs': ['nodisc']}, tags=['C01', 'C02', 'C03', 'C04', 'C06', 'C07'], canary=False,
+                       note='book unit with the clock-discipline conjuncts of place_pre / replace_pre / orders_ok removed')], 'design': '§5 C05'},
+    # C12 quantifies over arbitrary modify prices: the grid clause of modify_order is checked without an on-grid precondition in a variant
+    'C12': {'legs': [V('book'), V('book', variant='c12', defines={'defs': ['finding_c12']}, only_fns=['OrderBook::modify_order'], canary=False,
+                                  note='modify_order with the unconditional grid clause (expected refutation, known finding)')], 'design': '§5 C12'},
     'C13': {'legs': [V('book')], 'design': '§5 C13'},
 }
 
@@ -194,12 +200,15 @@ def decide_verus_leg(pid, leg, tier, seed, log):
     if u.meta['warnings']:
         for w in u.meta['warnings']:
             log('warning: ' + w)
-    res = u.verify(seed=0)
+    res = u.verify(seed=0, funcs=leg.get('only_fns'))
     if res.get('frontend_error'):
         raise Undecided('verus front end on unit %s: %s' % (u.label, res['frontend_error']))
     fails, infra = u.failures(res)
-    mine = [o for o in u.table if pid in ob.tag_props(o['tags']) and o['kind'] != 'requires']
-    pre = [o for o in u.table if pid in ob.tag_props(o['tags']) and o['kind'] == 'requires']
+    tagset = set(leg.get('tags') or [pid])
+    only = leg.get('only_fns')
+    hit = lambda tags: bool(tagset & set(ob.tag_props(tags)))
+    mine = [o for o in u.table if hit(o['tags']) and o['kind'] != 'requires' and (not only or o['fn'] in only)]
+    pre = [o for o in u.table if hit(o['tags']) and o['kind'] == 'requires' and (not only or o['fn'] in only)]
     mine_ids = {o['id'] for o in mine}
     by_id = {o['id']: o for o in u.table}
 
@@ -210,7 +219,7 @@ def decide_verus_leg(pid, leg, tier, seed, log):
             return False
         if o['kind'] == 'body':
             tags = d.get('line_tags') or d.get('callee_tags') or o['tags']
-            return pid in ob.tag_props(tags)
+            return hit(tags)
         return f['obligation'] in mine_ids
     refuted = [f for f in fails if serves(f)]
     # functions of this property that Verus reports as failed
@@ -223,9 +232,9 @@ def decide_verus_leg(pid, leg, tier, seed, log):
             if r2.get('frontend_error'):
                 raise Undecided('verus front end while confirming: %s' % r2['frontend_error'])
             f2, i2 = u.failures(r2)
-            ids2 = {x['obligation'] for x in f2}
+            ids2 = {x['full'] for x in f2}
             for f in refuted:
-                confirm.setdefault(f['obligation'], []).append(f['obligation'] in ids2)
+                confirm.setdefault(f['full'], []).append(f['full'] in ids2)
         unstable = [k for k, v in confirm.items() if not all(v)]
         if unstable:
             raise Undecided('unstable proof (fails under seed 0, passes under another seed): %s' % ', '.join(unstable))
@@ -250,7 +259,8 @@ def run_canaries(leg, pid, log):
     res = u.verify(seed=0, multiple_errors=2)
     if res.get('frontend_error'):
         raise Undecided('verus front end on canary unit %s: %s' % (u.label, res['frontend_error']))
-    want = [f['name'] for f in u.meta['functions'] if f.get('canary') and pid in ob.tag_props(f.get('tags') or [])]
+    tagset = set(leg.get('tags') or [pid])
+    want = [f['name'] for f in u.meta['functions'] if f.get('canary') and tagset & set(ob.tag_props(f.get('tags') or []))]
     hit = set()
     for d in res['diagnostics']:
         for s in d['spans']:
@@ -265,7 +275,7 @@ def write_replay(pid, refuted, leg_infos, extra=None):
     path = os.path.join(REPLAYS, '%s.json' % pid)
     doc = {'property': pid, 'failed_obligations': [], 'witness': None, 'note': 'obligations that are discharged on the unchanged tree and are refuted on this tree'}
     for f in refuted:
-        doc['failed_obligations'].append({'obligation': f['obligation'], 'function': f['fn'], 'verifier_output': f['detail']})
+        doc['failed_obligations'].append({'obligation': f['full'], 'function': f['fn'], 'verifier_output': f['detail']})
     if extra:
         doc.update(extra)
     with open(path, 'w') as fh:
@@ -297,7 +307,7 @@ def main():
         for leg in cfg['legs']:
             if leg['engine'] == 'verus':
                 info = decide_verus_leg(pid, leg, a.tier, seed, log)
-                info['canary'] = run_canaries(leg, pid, log)
+                info['canary'] = run_canaries(leg, pid, log) if leg.get('canary', True) else {'skipped': 'variant of a unit whose canaries run under the base unit', 'vacuous': []}
                 if info['canary']['vacuous']:
                     raise Undecided('vacuity canary verified (contradictory precondition?) for: %s' % ', '.join(info['canary']['vacuous']))
                 legs.append(info)
@@ -311,44 +321,124 @@ def main():
     refuted = [f for i in legs for f in i['refuted']]
     kf = [k for k in known.get('findings', []) if k['property'] == pid]
     kf_obl = {o for k in kf for o in k['obligations']}
-    new = [f for f in refuted if f['obligation'] not in kf_obl]
+    new = [f for f in refuted if f['full'] not in kf_obl]
     rc = 0
+    kf_report = []
     for k in kf:
-        if any(f['obligation'] in k['obligations'] for f in refuted):
+        now = any(f['full'] in k['obligations'] for f in refuted)
+        rep = None
+        if now:
             print('KNOWN-FINDING: property=%s %s' % (pid, k['summary']))
+            if k.get('replay') and build_replay():
+                # re-confirm the recorded history against the real code (informational; never changes the verdict)
+                p = subprocess.run([build_replay(), 'run', os.path.join(ROOT, k['replay'])], capture_output=True, text=True)
+                rep = (p.returncode == 1)
+        kf_report.append({'id': k['id'], 'obligations': k['obligations'], 'refuted_on_this_tree': now, 'history_reproduces_on_real_code': rep})
     if new:
         path = write_replay(pid, new, legs)
         wit = witness_search(pid, new, a.tier, seed, path)
         for f in new:
-            print('refuted obligation %s :: %s' % (f['obligation'], f['detail']['message']))
+            print('refuted obligation %s :: %s' % (f['full'], f['detail']['message']))
             for w in f['detail']['where']:
                 print('     %s %s | %s' % (w['label'] or '', w['origin'], w['text'][:140]))
         print('VIOLATION property=%s replay=%s%s' % (pid, path, '' if wit else ' no-failing-input-found'))
         rc = 1
-    write_evidence(pid, a.tier, seed, t0, legs, notes, refuted=refuted, new=new)
+    write_evidence(pid, a.tier, seed, t0, legs, notes, refuted=refuted, new=new, known=kf_report, kf_obl=kf_obl)
     if rc == 0:
+        ev = json.load(open(os.path.join(EVID, pid + '.json')))
         print('OK property=%s obligations=%d discharged=%d units=%s wall=%.1fs' % (
-            pid, sum(len(i['mine']) for i in legs), sum(len(i['mine']) for i in legs) - len({f['obligation'] for f in refuted}),
-            ','.join(i['unit'].label for i in legs), time.time() - t0))
+            pid, ev['coverage']['obligations'], ev['coverage']['discharged'], ','.join(i['unit'].label for i in legs), time.time() - t0))
     return rc
+
+
+_replay_bin = None
+
+
+def build_replay():
+    """Builds the replay runner against REPO's working tree (path dependencies); returns the binary path or None."""
+    global _replay_bin
+    if _replay_bin is not None:
+        return _replay_bin or None
+    d = os.path.join(BUILD, 'replay')
+    os.makedirs(d, exist_ok=True)
+    src = os.path.join(ROOT, 'replay')
+    with open(os.path.join(d, 'Cargo.toml'), 'w') as f:
+        f.write(open(os.path.join(src, 'Cargo.toml.in')).read().replace('@REPO@', REPO))
+    sh(['rm', '-rf', os.path.join(d, 'src')])
+    sh(['cp', '-r', os.path.join(src, 'src'), os.path.join(d, 'src')])
+    if os.path.exists(os.path.join(REPO, 'Cargo.lock')):
+        sh(['cp', os.path.join(REPO, 'Cargo.lock'), os.path.join(d, 'Cargo.lock')])
+    env = dict(os.environ, CARGO_NET_OFFLINE='true')
+    p = subprocess.run(['cargo', 'build', '--offline', '--quiet'], cwd=d, capture_output=True, text=True, env=env)
+    if p.returncode != 0:
+        # a lock file copied from the repository may not cover the runner's own dependencies: retry without it
+        sh(['rm', '-f', os.path.join(d, 'Cargo.lock')])
+        p = subprocess.run(['cargo', 'build', '--offline', '--quiet'], cwd=d, capture_output=True, text=True, env=env)
+    if p.returncode != 0:
+        print('note: replay runner does not build against this tree: %s' % p.stderr[-600:], file=sys.stderr)
+        _replay_bin = ''
+        return None
+    _replay_bin = os.path.join(d, 'target', 'debug', 'bourse-replay')
+    return _replay_bin
+
+
+SEARCH_PROPS = {'C01', 'C02', 'C03', 'C04', 'C05', 'C06', 'C07', 'C12', 'C13'}
 
 
 def witness_search(pid, new, tier, seed, replay_path):
     """After a Verus refutation: look for a concrete failing history on the real code (never changes the verdict)."""
+    if pid not in SEARCH_PROPS:
+        return None
+    b = build_replay()
+    if not b:
+        return None
+    out = replay_path + '.witness'
+    depth, nrand, budget = (3, 4000, 40) if tier == 'quick' else (4, 40000, 400)
+    cmd = [b, 'search', '--prop', pid, '--depth', str(depth), '--seed', str(seed), '--random', str(nrand), '--len', '60', '--budget', str(budget), '--out', out]
+    if pid == 'C05':
+        cmd.append('--ties')
+    if pid == 'C12':
+        cmd.append('--offgrid')
+    p = subprocess.run(cmd, capture_output=True, text=True)
+    if p.returncode == 1 and os.path.exists(out):
+        w = json.load(open(out))
+        os.remove(out)
+        doc = json.load(open(replay_path))
+        doc['witness'] = w
+        doc['witness_cmd'] = ' '.join(cmd)
+        doc['note'] += '; witness = a history on which the executable twin of the refuted clause fails when run against the real compiled code (replay: ./check %s --replay <this file>)' % pid
+        with open(replay_path, 'w') as fh:
+            json.dump(doc, fh, indent=1)
+        return w
     return None
 
 
 def replay_file(pid, path):
+    """Re-executes the witness of a replay file against the real code; prints the failed obligations it carries."""
     doc = json.load(open(path))
-    print(json.dumps(doc, indent=1)[:4000])
-    return 0
+    for f in doc.get('failed_obligations', []):
+        print('failed obligation: %s (%s)' % (f['obligation'], f['verifier_output'].get('message')))
+    if doc.get('witness') or doc.get('history'):
+        b = build_replay()
+        if not b:
+            print('replay runner does not build')
+            return 2
+        p = subprocess.run([b, 'run', path], capture_output=True, text=True)
+        print(p.stdout)
+        return 1 if p.returncode == 1 else 0
+    print('no failing input recorded (no-failing-input-found): the replay file carries the verifier output only')
+    return 1 if doc.get('failed_obligations') else 0
 
 
-def write_evidence(pid, tier, seed, t0, legs, notes, refuted=(), new=(), undecided=None):
+def write_evidence(pid, tier, seed, t0, legs, notes, refuted=(), new=(), undecided=None, known=(), kf_obl=()):
     os.makedirs(EVID, exist_ok=True)
-    obligations = sum(len(i['mine']) for i in legs)
     ref_ids = {f['obligation'] for f in refuted}
-    discharged = obligations - len([1 for i in legs for o in i['mine'] if o['id'] in ref_ids])
+    # obligations that only fail through a listed known finding are reported apart and not counted as proof obligations
+    kf_ids = {f['obligation'] for f in refuted if f['full'] in kf_obl}
+    new_ids = {f['obligation'] for f in new}
+    kf_only = kf_ids - new_ids
+    obligations = sum(len([o for o in i['mine'] if o['id'] not in kf_only]) for i in legs)
+    discharged = obligations - len([1 for i in legs for o in i['mine'] if o['id'] in new_ids])
     samples = []
     fns = {}
     assumptions = []
@@ -381,7 +471,8 @@ def write_evidence(pid, tier, seed, t0, legs, notes, refuted=(), new=(), undecid
             'samples': samples or [{'note': 'no obligations (undecided run)'}],
             'functions_under_contract': fns,
             'units': units, 'rewrite_rules': rules,
-            'refuted_obligations': sorted(ref_ids), 'new_refutations': sorted({f['obligation'] for f in new}),
+            'refuted_obligations': sorted({f['full'] for f in refuted}), 'new_refutations': sorted({f['full'] for f in new}),
+            'known_findings': list(known), 'obligations_refuted_by_known_findings_not_counted': sorted(kf_only),
             'back_end': 'Verus %s (Z3)' % verus_version(),
             'explanation': undecided or 'every obligation tagged %s in the generated units was discharged by Verus on source extracted from the working tree on this run' % pid,
         },
